@@ -6,6 +6,7 @@ import (
 	"errors"
 	"fmt"
 	"go/constant"
+	"math"
 	"reflect"
 	"regexp"
 	"strings"
@@ -3959,10 +3960,16 @@ func convertConstantValueTo(n *node, t reflect.Type) {
 		}
 	case constant.Float:
 		f, _ := constant.Float64Val(c)
+		if math.IsInf(f, 0) {
+			panic(n.cfgErrorf("constant %s overflows float64", c.String()))
+		}
 		v = reflect.ValueOf(f)
 	case constant.Complex:
 		r, _ := constant.Float64Val(constant.Real(c))
 		i, _ := constant.Float64Val(constant.Imag(c))
+		if math.IsInf(r, 0) || math.IsInf(i, 0) {
+			panic(n.cfgErrorf("constant %s overflows complex128", c.String()))
+		}
 		v = reflect.ValueOf(complex(r, i))
 	}
 
